@@ -405,8 +405,19 @@ br_ssl_engine_set_buffers_bidi(br_ssl_engine_context *rc,
 	if (ibuf == NULL) {
 		if (rc->ibuf == NULL) {
 			br_ssl_engine_fail(rc, BR_ERR_BAD_PARAM);
+		} else {
+			/*
+			 * Keep the current buffers, but recompute the
+			 * fragment length: a value negotiated with a
+			 * previous peer must not survive a reset.
+			 */
+			ibuf = rc->ibuf;
+			ibuf_len = rc->ibuf_len;
+			obuf = rc->obuf;
+			obuf_len = rc->obuf_len;
 		}
-	} else {
+	}
+	if (ibuf != NULL) {
 		unsigned u;
 
 		rc->ibuf = ibuf;
